@@ -85,8 +85,15 @@ def main():
         (r"^context::Context::<'_>::(?:get_function|has_function)$", lambda e, m, a: e.call_fn(find("::" + m.group(0).split("::")[-1]), a)),
         (r"^<S as (?:std::convert::)?Into<std::string::String>>::into$", lambda e, m, a: deref(e, a[0])),
         (r"^<V as (?:std::convert::)?Into<Value>>::into$", ident),
+        # the host value's conversion succeeds (conv_ok) with the converted value or fails with an abstract error
+        (r"^<V as TryIntoValue>::try_into_value$", lambda e, m, a: ("enum", "Result::Ok", [a[0]]) if not (isinstance(a[0], tuple) and a[0][0] == "bad_host_value") else ("enum", "Result::Err", [("conversion_error",)])),
         (r"^<std::string::String as (?:std::convert::)?Into<Arc<std::string::String>>>::into$", ident),
         (r"^<std::string::String as Clone>::clone$", lambda e, m, a: deref(e, a[0])),
+        (r"^<std::string::String as Deref>::deref$", lambda e, m, a: (lambda s_: ("str", s_[1].encode() if isinstance(s_[1], str) else s_[1]))(deref(e, a[0]))),
+        (r"^std::string::String::as_str$", lambda e, m, a: (lambda s_: ("str", s_[1].encode() if isinstance(s_[1], str) else s_[1]))(deref(e, a[0]))),
+        (r"^<&std::string::String as (?:std::convert::)?Into<std::string::String>>::into$", lambda e, m, a: deref(e, a[0])),
+        (r"^<&str as (?:std::convert::)?Into<std::string::String>>::into$", lambda e, m, a: ("string", a[0][1].decode())),
+        (r"^<str as ToString>::to_string$", lambda e, m, a: ("string", a[0][1].decode())),
         (r"^HashMap::<std::string::String, Value>::get::<std::string::String>$", m_map_get),
         (r"^HashMap::<std::string::String, Value>::insert$", m_map_insert),
         (r"^HashMap::<std::string::String, Value>::contains_key::<.*>$", lambda e, m, a: (lambda k: (k[1].decode() if isinstance(k[1], bytes) else k[1]) in deref(e, a[0])[1])(deref(e, a[1]))),
@@ -98,6 +105,7 @@ def main():
     try:
         f_get = find("::get_variable")
         f_add = find("::add_variable_from_value")
+        f_add_conv = find("::add_variable")
         names = ["a", "b", "c"]
         subsets = [[n for k, n in enumerate(names) if (mask >> k) & 1] for mask in range(8)]
         for levels in (1, 2, 3):
@@ -122,7 +130,7 @@ def main():
                             return ("enum", "Result::Ok", [("abs_val", "%s@%d" % (name, lv))])
                     return None
                 eng = Engine(fns, consts, extern)
-                eng.discriminants = {"Context::Root": 0, "Context::Child": 1, "Result::Ok": 0, "Result::Err": 1}
+                eng.discriminants = {"Context::Root": 0, "Context::Child": 1, "Result::Ok": 0, "Result::Err": 1, "ControlFlow::Continue": 0, "ControlFlow::Break": 1}
                 eng.steps = 0
                 probs = []
                 for name in names:
@@ -154,6 +162,24 @@ def main():
                     got = eng.call_fn(f_get, [inner, ("string", name)])
                     if got != ("enum", "Result::Ok", [("abs_val", "new-" + name)]):
                         probs.append("after defining %s the lookup gives %r" % (name, got))
+                # the host-facing definition (`add_variable`, with a conversion): define and redefine in the innermost scope;
+                # a failing conversion defines nothing
+                for name in names:
+                    for round_ in (1, 2):
+                        before = [copy.deepcopy(h[0][2][1][1]) for h in holders[:-1]]
+                        r_add = eng.call_fn(f_add_conv, [inner, ("string", name), ("abs_val", "host%d-%s" % (round_, name))])
+                        stats["paths"] += 1
+                        if before != [h[0][2][1][1] for h in holders[:-1]]:
+                            probs.append("add_variable(%s) in the innermost scope changed an enclosing scope" % name)
+                        if not (isinstance(r_add, tuple) and r_add[1] == "Result::Ok"):
+                            probs.append("add_variable(%s) with a convertible value is not Ok: %r" % (name, r_add))
+                        got = eng.call_fn(f_get, [inner, ("string", name)])
+                        if got != ("enum", "Result::Ok", [("abs_val", "host%d-%s" % (round_, name))]):
+                            probs.append("after add_variable(%s) (definition %d) the lookup gives %r" % (name, round_, got))
+                    r_bad = eng.call_fn(f_add_conv, [inner, ("string", name), ("bad_host_value",)])
+                    got = eng.call_fn(f_get, [inner, ("string", name)])
+                    if not (isinstance(r_bad, tuple) and r_bad[1] == "Result::Err") or got != ("enum", "Result::Ok", [("abs_val", "host2-%s" % name)]):
+                        probs.append("add_variable(%s) with an inconvertible value: result %r, lookup afterwards %r" % (name, r_bad, got))
                 if probs:
                     failures.append({"levels": levels, "defined": [list(x) for x in combo], "problems": probs[:4]})
                 else:
